@@ -881,6 +881,26 @@ func c18Case(w *W, r *Rng, idx int, t *Ty, hz string, knownText string, desc str
 	if len(w.stats.Samples) < 6 && idx%997 == 0 {
 		w.Sample(fmt.Sprintf("%s -> Literal %s", canon, shownFn))
 	}
+	// ---- correspondence of the Lean specification (Ty, tokens, canonTy, WfTy, GrammarTy) with this file's algebra:
+	// same canonical text, same tokens as the real lexer produced, every generated type is in the grammar, and it is
+	// well-formed (the domain of the theorems) exactly when it is not one of the known-finding shapes
+	if useModel && first != nil {
+		var sb strings.Builder
+		c18Encode(t, &sb)
+		wf := "1"
+		if hz != hzNone {
+			wf = "0"
+		}
+		exp := wf + " 1 " + hexOrDash([]byte(canon)) + " " + c18TokLine(first)
+		if ans := w.Model().Ask("c18ty " + sb.String()); ans != exp {
+			w.stats.Disagree++
+			w.Report(Finding{Kind: "model", Key: "model@c18-spec", Input: fmt.Sprintf("%q", canon), InputHex: hexs([]byte(canon)), Disagreement: true,
+				Obligation: "C18.spec-correspondence(tokens/canonTy/WfTy/GrammarTy)",
+				Detail:     fmt.Sprintf("encoded %s\nlean %s\ngo   %s", sb.String(), ans, exp)})
+		} else {
+			w.Count("spec/agree")
+		}
+	}
 	// ---- correspondence with the Lean model on the same tokens
 	if useModel && first != nil {
 		ans := w.Model().Ask("c18 " + c18TokLine(first))
@@ -892,6 +912,37 @@ func c18Case(w *W, r *Rng, idx int, t *Ty, hz string, knownText string, desc str
 				Detail:     fmt.Sprintf("tokens %s\nmodel %s\nreal  %s", c18TokLine(first), ans, exp)})
 		} else {
 			w.Count("model/agree")
+		}
+	}
+}
+
+// c18Encode is the prefix encoding of a type for the driver op `c18ty` (see DC/Model/Types.lean).
+func c18Encode(t *Ty, sb *strings.Builder) {
+	fmt.Fprintf(sb, "t,%d", len(t.Words))
+	for _, w := range t.Words {
+		sb.WriteString("," + hexOrDash([]byte(w)))
+	}
+	fmt.Fprintf(sb, ",%d", len(t.Args))
+	neg := func(b bool) string {
+		if b {
+			return "1"
+		}
+		return "0"
+	}
+	for _, a := range t.Args {
+		switch a.Kind {
+		case aTy:
+			sb.WriteString(",y,")
+			c18Encode(a.T, sb)
+		case aNamed:
+			sb.WriteString(",n," + hexOrDash([]byte(a.Name)) + ",")
+			c18Encode(a.T, sb)
+		case aNum:
+			fmt.Fprintf(sb, ",u,%s,%d", neg(a.Neg), a.U)
+		case aStr:
+			sb.WriteString(",s," + hexOrDash([]byte(a.S)))
+		case aEnum:
+			fmt.Fprintf(sb, ",e,%s,%s,%d", hexOrDash([]byte(a.S)), neg(a.Neg), a.U)
 		}
 	}
 }
